@@ -1360,7 +1360,8 @@ class Server:
         # restart offset is for this transfer only
         restart_offset = connection.restart_offset
         connection.restart_offset = 0
-        if await connection.path_io.is_dir(real_path.parent):
+        real_parent, _ = self.get_paths(connection, virtual_path.parent)
+        if await connection.path_io.is_dir(real_parent):
             coro = stor_worker(self, connection, rest)
             task = asyncio.create_task(coro)
             connection.extra_workers.add(task)
